@@ -843,3 +843,14 @@ M("c13-attached-segment-hidden-behind-neighbour", "C13", "cola/libtopology/topol
   "        if ( (p<leftLimit&&!s->connectedToNode(leftNeighbour)&&\n", "        if ( (p<leftLimit&&\n", mention=["HIDDEN-SEGMENT-SKIP"])
 M("c13-cycle-prune-loses-closure", "C13", "cola/libtopology/topology_graph.cpp",
   "        e->lastSegment=start->inSegment;", "        e->lastSegment=end->outSegment;", mention=["PRUNE-MERGE", "closed"])
+
+# ---------------------------------------------------------------- neutral renames (the rules must not depend on local names)
+M("c13-neutral-rename-crossing-position", "C13", "cola/libtopology/topology_constraints_constructor.cpp",
+  "        const double p = s->forwardIntersection(scanDim, pos);\n        // a neighbour only hides the segment if the segment is not attached\n        // to it: a segment ending in the neighbour's centre can swing out\n        // from behind it.\n        if ( (p<leftLimit&&!s->connectedToNode(leftNeighbour)&&",
+  "        const double crossing = s->forwardIntersection(scanDim, pos);\n        const double p = crossing;\n        if ( (crossing<leftLimit&&!s->connectedToNode(leftNeighbour)&&", expect="silent")
+M("c04-neutral-rename-sweep-loop-variable", "C04", "cola/libavoid/visibility.cpp",
+  "    for (VertInf *inf = beginVert; inf != endVert; inf = inf->lstNext)\n    {\n        if (inf == centerInf)",
+  "    VertInf *const lastVert = endVert;\n    for (VertInf *inf = beginVert; inf != lastVert; inf = inf->lstNext)\n    {\n        if (inf == centerInf)", expect="silent")
+M("c09-neutral-rename-copyback-iterators", "C09", "cola/libvpsc/rectangle.cpp",
+  "        Rectangles::iterator r=rs.begin();\n        for(v=vs.begin();v!=vs.end();++v,++r) {\n            COLA_ASSERT(ISNOTNAN((*v)->finalPosition));\n            (*r)->moveCentreX((*v)->finalPosition);\n        }\n        COLA_ASSERT(r==rs.end());",
+  "        Rectangles::iterator r=rs.begin();\n        for(v=vs.begin();v!=vs.end();++v,++r) {\n            Variable *solved=*v;\n            COLA_ASSERT(ISNOTNAN(solved->finalPosition));\n            (*r)->moveCentreX((*v)->finalPosition);\n        }\n        COLA_ASSERT(r==rs.end());", expect="silent")
